@@ -39,6 +39,7 @@ void report_fault(RunResult &rr, Hist &h, const FaultInfo &fi, const char *where
         case FC_LIBDATA: o = "C15.libdata_write"; break;
         case FC_ABORT: o = "C05.abort"; break;
         case FC_UD: o = "C16.ud"; break;
+        case FC_HANG: o = strstr(where, "inflate") ? "C06.hang" : strstr(where, "deflate") ? "C10.hang" : "C05.hang"; break;
         }
         rr.fail(o, strf("%s: %s", where, fault_str(fi).c_str()));
 }
@@ -659,14 +660,38 @@ static Json gen_deflate(Rng &r0, const std::string &focus, int tier)
                 o.push(0).push(feed).push(out).push(flush).push(eosf).push(flags);
                 ops.push(o);
         }
+        // "big chunk" sessions: hundreds of KiB of poorly compressible data in a few large chunks, so that blocks start in
+        // one caller buffer and close in the next while the codec compresses straight from the caller's memory
+        bool bigchunk = !starve && r.chance(1, 8);
+        if (bigchunk) {
+                Json bd = Json::obj();
+                uint64_t bn = 150000 + r.below(1000000);
+                static const int bks[] = { DK_RANDOM, DK_RANDOM, DK_MIXED, DK_FF };
+                bd.set("k", r.pick(bks)).set("n", bn).set("s", r.u64() >> 16).set("p", 0);
+                p.set("data", bd);
+                n = bn;
+                big = (uint32_t) bn;
+                ops = Json::arr();
+                for (int i = (int) (2 + rio.below(7)); i > 0; i--) {
+                        uint32_t feed = (uint32_t) (30000 + rio.below(500000));
+                        uint32_t out = rio.chance(3, 4) ? feed + feed / 8 + 2048 : (uint32_t) (1 + rio.logsize(100000));
+                        Json o = Json::arr();
+                        o.push(0).push(feed).push(out).push(rio.chance(1, 8) ? (int) (1 + rio.below(2)) : 0).push((int) rio.below(2)).push((int) (rio.chance(1, 2) ? 1 : 0) | (rio.chance(1, 4) ? 32 : 0));
+                        ops.push(o);
+                }
+        }
         p.set("ops", ops);
         Json tl = Json::arr();
         uint32_t tin = rio.chance(1, 2) ? 0 : gen_chunk(rio, im, big);
+        if (bigchunk && tin && tin < 30000)
+                tin += 30000;
         uint32_t tout;
         if (focus == "C10" && starve)
                 tout = (uint32_t) (1 + rio.below(rio.chance(1, 2) ? 1 : 9));
         else
                 tout = rio.chance(1, 2) ? (uint32_t) (big + big / 2 + 1024) : std::max<uint32_t>(1, gen_chunk(rio, om, big + 1024));
+        if (bigchunk && tout < 4096)
+                tout += 4096;
         if (n > 20000 && tout < 64 && !(focus == "C10"))
                 tout = 64 + tout; // keep long streams from needing 10^5 calls
         if (n > 4000 && tout < 8)
